@@ -109,6 +109,11 @@ def run(ev, rep, rng, exe, model, quick, pid="C11"):
                 rep.violation("the LP lexer crashes in a direct session: " + tr.crashed[-300:], dict(replay, stderr=tr.stderr[-1500:]),
                               signature={"symptom": "crash", "where": "lplex"})
                 break
+            esc = [(op, vals) for op, blk in tr[:-1] for key, vals in blk if key == "escaped"]
+            if esc:
+                rep.violation("the cursor of the LP lexer leaves the string of its line buffer (offset %s, string length %s) in %s" % (esc[0][1][0], esc[0][1][1], esc[0][0]), replay,
+                              signature={"symptom": "lplex-cursor-escapes"})
+                break
             got = [list(vals) for op, blk in tr[:-1] for key, vals in blk if key == "lx"]
             want = [list(vals) for key, vals in (model.ans(k) or []) if key == "lx"]
             for o, g in zip(["new"] + ops, got):
@@ -136,4 +141,108 @@ def run(ev, rep, rng, exe, model, quick, pid="C11"):
                 break
         for kk, v in sorted(stats.items()):
             ev.stat("lplex-op:" + kk, v)
+    return compare
+
+
+# ------------------------------------------------------------------------------------------------ MPS lexer (Qsx.MpsLex vs read_mps.c)
+MWORDS = ["NAME", "ROWS", "COLUMNS", "RHS", "RANGES", "BOUNDS", "ENDATA", "OBJSENSE", "MAX", "N", "G", "L", "E", "UP", "LO", "FX", "FR", "MI", "PL", "BV", "obj", "r1", "R2",
+          "x", "y1", "rhs", "bnd", "MARKER", "'MARKER'", "'INTORG'", "'INTEND'", "$", "$comment", "a$b", "*", "*x", "inf", "-inf", "+INF", "Infinity", "-INFINITY", "infx",
+          "-infinity2", "+", "-", "\xe9", "z" * 50]
+MSEP = [" ", " ", "  ", "\t", "    ", "\r", "\x0c", "\x0b", "\n", "\n", "\n ", "\n    ", "\n*comment\n", "\n\n", " $ rest is comment\n", "\x00", " \n", "\r\n"]
+MOPS = [("nl", 16), ("nf", 30), ("coef", 16), ("bound", 14), ("isnum", 8), ("eol", 10), ("seteol", 4)]
+
+
+def gen_mps_text(rng):
+    kind = rng.wchoice([("lines", 40), ("mps", 25), ("soup", 25), ("tiny", 8), ("long", 2)])
+    if kind == "tiny":
+        return rng.choice(["", "\n", " ", "x", "*", "$", " $", "\x0b", "\x00", " x", "x y", " 1", " inf", " -", "\x0b\n", "NAME", " a b 1\n", " rhs2"])
+    if kind == "lines":
+        t = "".join(rng.choice(MLINES) for _ in range(rng.rint(1, 12)))
+        return t[:-1] if t.endswith("\n") and rng.chance(0.3) else t
+    if kind == "long":
+        n = rng.choice([131068, 131069, 131070, 131071, 140000])
+        return rng.choice(["", "ROWS\n"]) + (" x1 r1 1.5" * (n // 10 + 1))[:n] + rng.choice(["\n", ""]) + " last line\n"
+    parts = []
+    for _ in range(rng.rint(1, 40)):
+        k = rng.wchoice([("w", 45), ("n", 25), ("s", 30)])
+        parts.append(rng.choice(MWORDS) if k == "w" else rng.choice(NUMS) if k == "n" else rng.choice(MSEP))
+        if kind == "mps":
+            parts.append(rng.choice(MSEP))
+    t = "".join(parts)
+    return t + ("\n" if rng.chance(0.5) else "")
+
+
+MLINES = [" x obj 1 r1 2\n", " x  r1  -3/4   r2  1e2  $ comment\n", "    rhs       r1   1.5   r2  -2/3\n", " UP bnd x 4\n", " MI bnd y\n", " LO bnd z -inf\n", " UP bnd w +INFINITY  $ c\n",
+          " FX bnd v 1/3 extra\n", " N obj\n", " G r1\n", "NAME prob\n", "ROWS\n", "COLUMNS\n", "RHS\n", "BOUNDS\n", "ENDATA\n", "* comment\n", "\n", " M1 'MARKER' 'INTORG'\n", " rng r1 2.5\n",
+          " UP bnd infx 2\n", " UP bnd x infinity\n", " x obj 1 $ r1 2\n", "RANGES", " rhs2 r1 1"]
+MPARSER = [["nl", "nf", "nf", "coef", "nf", "coef", "eol"], ["nl", "nf", "nf", "bound", "eol"], ["nl", "isnum 726873", "nf", "coef", "nf", "coef", "eol"], ["nl", "nf", "eol"], ["nl", "nl"],
+           ["nl", "nf", "nf", "coef", "eol", "nl", "nf", "bound"], ["nl", "seteol", "eol"]]
+
+
+def gen_mps_ops(rng, nops):
+    ops = ["nl"]
+    while len(ops) < nops:
+        if rng.chance(0.5):
+            for o in rng.choice(MPARSER):
+                ops += ["seteol", "eol", "nl"] if o == "seteol" else [o]
+            continue
+        o = rng.wchoice(MOPS)
+        if o == "isnum":
+            ops.append("isnum " + hx(rng.choice(["rhs", "x", "bnd"])))
+        elif o == "seteol":
+            ops += ["seteol", "eol", "nl"]          # as the callers do: nothing else is read from a line that was cut
+        else:
+            ops.append(o)
+    return ops
+
+
+def run_mps(ev, rep, rng, exe, model, quick):
+    nsess = 400 if quick else 6000
+    sessions = []
+    for k in range(nsess):
+        r = rng.fork("mx%d" % k)
+        sessions.append((gen_mps_text(r), gen_mps_ops(r, r.rint(3, 30 if quick else 80))))
+    sessions += [("ROWS\n N obj\n G R1\n G r2", ["nl", "nl", "nf", "nl", "nf", "nf", "nl", "nf", "nf", "eol", "nl"]),
+                 (" UP bnd x -inf\n UP bnd y +infinity $ c\n MI bnd z infx\n", ["nl", "nf", "nf", "bound", "eol", "nl", "nf", "nf", "bound", "eol", "nl", "nf", "nf", "bound", "nf"]),
+                 (" rhs2 r1 5", ["nl", "seteol", "eol", "nl"]), ("\x0b\nROWS\n", ["nl", "nl"]), ("RHS\n    rhs       r1   1.5   r2  -2/3\n", ["nl", "nl", "isnum " + hx("rhs"), "nf", "coef", "nf", "coef", "eol"])]
+    ks = [model.ask("mpslex %s %d %s" % (hx(t), len(o), " ".join(o))) for t, o in sessions]
+    with ThreadPoolExecutor(build.NCPU) as ex:
+        trs = list(ex.map(lambda s: proto.run_harness(exe, ["mxnew " + hx(s[0])] + ["mx" + o for o in s[1]] + ["mxfree"], timeout=300), sessions))
+
+    def compare():
+        stats = {}
+        for (text, ops), k, tr in zip(sessions, ks, trs):
+            lines = ["mxnew " + hx(text)] + ["mx" + o for o in ops] + ["mxfree"]
+            ev.cov["traces_validated_against_impl"] += 1
+            ev.count("mpslex|" + hx(text) + "|" + " ".join(ops), nontrivial=len(text) > 3 and len(ops) > 2)
+            replay = {"lines": lines, "model_line": "mpslex %s %d %s" % (hx(text), len(ops), " ".join(ops)), "text": text[:400]}
+            if tr.crashed and getattr(tr, "returncode", 0) != 0:
+                rep.violation("the MPS lexer crashes in a direct session: " + tr.crashed[-300:], dict(replay, stderr=tr.stderr[-1500:]), signature={"symptom": "crash", "where": "mpslex"})
+                break
+            esc = [(op, vals) for op, blk in tr[:-1] for key, vals in blk if key == "escaped"]
+            if esc:
+                rep.violation("the cursor of the MPS lexer leaves the string of its line buffer (offset %s, string length %s) in %s" % (esc[0][1][0], esc[0][1][1], esc[0][0]), replay,
+                              signature={"symptom": "mpslex-cursor-escapes"})
+                break
+            got = [list(vals) for op, blk in tr[:-1] for key, vals in blk if key == "mx"]
+            want = [list(vals) for key, vals in (model.ans(k) or []) if key == "mx"]
+            for o, g in zip(["new"] + ops, got):
+                kk = o.split()[0] + ":" + g[0]
+                stats[kk] = stats.get(kk, 0) + 1
+            if got != want:
+                tr2 = proto.run_harness(exe, lines, timeout=300, env_extra={"QSX_LXPOISON": "1"})
+                got2 = [list(vals) for op, blk in tr2[:-1] for key, vals in blk if key == "mx"]
+                at = next((i for i, (a, b) in enumerate(zip(got, want)) if a != b), min(len(got), len(want)))
+                if got2 != got:
+                    at2 = next((i for i, (a, b) in enumerate(zip(got, got2)) if a != b), min(len(got), len(got2)))
+                    rep.violation("the MPS lexer reads behind the string terminator of its line buffer: the answer of call %d (%s) changes with the bytes stored there: %s vs %s" %
+                                  (at2, (["new"] + ops)[at2] if at2 <= len(ops) else "?", got[at2] if at2 < len(got) else None, got2[at2] if at2 < len(got2) else None),
+                                  dict(replay, env="QSX_LXPOISON=0 / 1"), signature={"symptom": "mpslex-reads-behind-terminator"})
+                    break
+                rep.violation("read_mps.c differs from Qsx.MpsLex after call %d (%s): C %s, model %s  [rc pnull line_num p field_num key field extra]" %
+                              (at, (["new"] + ops)[at] if at <= len(ops) else "?", got[at] if at < len(got) else None, want[at] if at < len(want) else None),
+                              dict(replay, c=got[max(0, at - 2):at + 2], model=want[max(0, at - 2):at + 2]), signature={"symptom": "mpslex-model-differs"}, found_input=False)
+                break
+        for kk, v in sorted(stats.items()):
+            ev.stat("mpslex-op:" + kk, v)
     return compare
